@@ -23,6 +23,19 @@ pub fn resolve_align(
         &mut expr::EvalContext::new(),
         &ast_align.expr)?;
 
+    // While symbol values are still guesses, a value outside
+    // the supported range is not an error yet
+    if !ctx.is_last_iteration
+    {
+        if let expr::Value::Integer(ref bigint) = value
+        {
+            if bigint.maybe_into::<usize>().is_none()
+            {
+                return Ok(asm::ResolutionState::Unresolved);
+            }
+        }
+    }
+
     let value = value.expect_error_or_usize(
         report,
         ast_align.expr.span())?;
